@@ -19,6 +19,7 @@ import (
 	_ "hv/props/c11"
 	_ "hv/props/c17"
 	_ "hv/props/c05"
+	_ "hv/props/c09"
 	_ "hv/props/c10"
 )
 
